@@ -274,7 +274,10 @@ Definition index_byte (c : byte) (l : list byte) : Z := index_byte_from c l 0%Z.
 Definition hostport (host default_port : list byte) : list byte * list byte :=
   let colon := last_index_byte 58 host in
   let bracket := index_byte 93 host in
-  if (bracket <? colon)%Z then (firstn (Z.to_nat colon) host, host)
+  if (bracket <? colon)%Z then
+    if (colon =? Z.of_nat (length host) - 1)%Z        (* empty port (fix F19): the default applies *)
+    then (firstn (Z.to_nat colon) host, firstn (Z.to_nat colon) host ++ default_port)
+    else (firstn (Z.to_nat colon) host, host)
   else (host, host ++ default_port).
 
 Inductive dial_plan :=
@@ -370,22 +373,26 @@ Definition expected_request (cfg : dcfg) (url_host uri nonce : list byte) : list
 
 (* host[:port] of a URL authority: reg-name / IPv4, or a bracketed IPv6 literal *)
 Definition no_byte (c : byte) (l : list byte) : bool := forallb (fun b => negb (b =? c)) l.
+Definition spec_name_port (h : list byte) : option (list byte * option (list byte)) :=
+  if negb (no_byte 93 h) then None                    (* name [ ":" port ] *)
+  else match split_byte 58 h with
+       | None => Some (h, None)
+       | Some (name, port) => if no_byte 58 port then Some (name, Some port) else None
+       end.
 Definition spec_split_host_port (host : list byte) : option (list byte * option (list byte)) :=
   match host with
-  | 91 :: _ =>                                        (* "[" v6 "]" [ ":" port ] *)
-      match split_byte 93 host with
-      | Some (inside, after) =>
-          match after with
-          | [] => Some (host, None)
-          | 58 :: port => if no_byte 58 port && no_byte 93 port then Some (inside ++ [93], Some port) else None
-          | _ => None
-          end
-      | None => None
-      end
-  | _ =>                                              (* name [ ":" port ] *)
-      if negb (no_byte 93 host) then None
-      else match split_byte 58 host with
-           | None => Some (host, None)
-           | Some (name, port) => if no_byte 58 port then Some (name, Some port) else None
-           end
+  | c :: _ =>
+      if c =? 91 then                                   (* "[" v6 "]" [ ":" port ] *)
+        match split_byte 93 host with
+        | Some (inside, after) =>
+            match after with
+            | [] => Some (host, None)
+            | a :: port =>
+                if (a =? 58) && no_byte 58 port && no_byte 93 port
+                then Some (inside ++ [93], Some port) else None
+            end
+        | None => None
+        end
+      else spec_name_port host
+  | [] => spec_name_port host
   end.
